@@ -38,16 +38,6 @@ PROPS = {
     },
 }
 
-# (moved below)
-# engines built separately contribute their own entries
-import importlib as _il
-
-for _m in ("props_ctsim", "props_cfisim", "props_machsim", "props_asmsim"):
-    try:
-        PROPS.update(_il.import_module("sim." + _m).PROPS)
-    except ModuleNotFoundError:
-        pass
-
 PROPS["C03"] = {
     "engine": "rwsim",
     "level": "exploration",
@@ -64,3 +54,29 @@ PROPS["C03"] = {
         "code never runs off the end of code into data or the end of a section (generator precondition)",
     ],
 }
+
+PROPS["C04"] = {
+    "engine": "rwsim",
+    "level": "exploration",
+    "quick_runs": 3000,
+    "thorough_runs": 60000,
+    "quick_wall": 240,
+    "thorough_wall": 2400,
+    "params": {"annot_p": 0.4},
+    "rule": "seeded scenarios with symbolic expressions in code and data and block-/interval-keyed comments and padding entries "
+    "(on first, last and inner bytes of instructions), edited before, inside and after the annotated positions; distinct = "
+    "(module, sessions) digest; non-trivial = at least one modification registered",
+    "real_vs_stub": RW_REAL,
+    "assumptions": ["expressions created by a patch are read from the assembler result captured at _invoke_patch; CFI directive keys are only checked for liveness and range here (their meaning is C08's)"],
+}
+
+# (moved below)
+# engines built separately contribute their own entries
+import importlib as _il
+
+for _m in ("props_ctsim", "props_cfisim", "props_machsim", "props_asmsim"):
+    try:
+        PROPS.update(_il.import_module("sim." + _m).PROPS)
+    except ModuleNotFoundError:
+        pass
+
